@@ -12,6 +12,7 @@ from harness.common.num import q, qs, fbits, unfbits, unq
 
 PID = "C09"
 LEVEL = "proof"
+EXTRA_PROP_FILES = ["C09Round"]  # "up to round-off": the schedules with every operation rounded
 REQUIRED_THEOREMS = [
     "constant_schedule", "runConst_spec", "constNext_minimal", "runLog_spec", "runLog_gaps", "logarithmic_schedule",
     "runLog_increasing", "runLog_period", "fixed_schedule", "remNext_first_not_passed", "fixed_exhausted_forever",
